@@ -179,13 +179,14 @@ def validate(name, scen, nw, struct, runs, wd, tag, invariants, markers=True):
             accepted += len(remaining)
             stats["events"] += sum(len(r) for r in remaining)
             break
-        if res.printed:
-            n = int(res.printed[-1].split(",")[1].strip())
-            reason = "unmatched"
-        elif res.violation and res.violation.startswith("Invariant"):
+        if res.violation and res.violation.startswith("Invariant"):
             ls = [ln for ln in res.trace if ln.startswith("/\\ l = ")]
             n = int(ls[-1].split("=")[1]) - 2 if ls else 0
             reason = "invariant:" + res.violation.split()[1]
+
+        elif res.printed:
+            n = int(res.printed[-1].split(",")[1].strip())
+            reason = "unmatched"
         else:
             raise ToolError("unexpected TLC outcome: %s\n%s" % (res.violation, res.output[-2000:]))
         pos = 0
